@@ -30,6 +30,7 @@ def run(prog, chk):
     collection(prog, chk)
     colours(prog, chk)
     plain_guards(prog, chk)
+    evaluated_classes_are_split(prog, chk)
     unfiltered_output(prog, chk)
 
 
@@ -351,3 +352,14 @@ def unfiltered_output(prog, chk):
         calls = [m for m in hirq.exprs(h["body"], "MethodCall") if m["name"] == name]
         ok = len(calls) == 1 and id(calls[0]) in direct
         chk.ob(ok, "A10.unfiltered-output", f"write_auto_styles:{name}", b.where(line=calls[0].get("line") if calls else None), f"the result of {name}() is written as produced by the theme builder", f"the result of {name}() is post-processed (filtered / mapped) before it is written, or read more than once: an emitted rule can lose the definition it references (or vice versa)")
+
+
+def evaluated_classes_are_split(prog, chk):
+    """a class entry that evaluates to several classes (`class="$style"`) is entered as separate classes: ClassList::replace
+    splits the new value on white space and inserts each word - the class set that selects the auto-styles is per class"""
+    b = prog.body("svgdx::types::ClassList::replace")
+    chk.touch(b)
+    splits = [bb for (bb, t, c) in b.call_sites(lambda c: c.path.split("::")[-1] in ("split_whitespace", "split_ascii_whitespace"))]
+    ins = [bb for (bb, t, c) in b.call_sites(lambda c: c.path.endswith("ClassList::insert"))]
+    in_loop = any(any(x in blocks for blocks in b.loops.values()) for x in ins)
+    chk.ob(bool(splits) and in_loop, "A16.class-split", "ClassList::replace", b.where(), "the evaluated value is split on white space and each class inserted", "ClassList::replace stores the evaluated value as one entry: `class=\"$style\"` with several classes in $style yields one compound `class`, none of whose classes gets its rule or definition")
